@@ -271,8 +271,9 @@ def run_property(pid, tier, seed):
     for p in parts:
         binary, err = targets[(p["target"], bool(p.get("race")))]
         if binary is None:
-            inconclusive.append("attach failed for part %s (build of %s): %s" %
-                                (p["name"], p["target"][1], (err or "").strip()[-1500:]))
+            msg = "attach failed (build of %s): %s" % (p["target"][1], (err or "").strip()[-1500:])
+            if msg not in inconclusive:
+                inconclusive.append(msg)
             continue
         nsh = p.get("shards", {}).get(tier, 1) if isinstance(p.get("shards"), dict) else p.get("shards", 1)
         nsh = max(1, min(int(nsh), NCPU if not p.get("exclusive") else 1))
